@@ -19,12 +19,7 @@ about is mirrored AS CODED:
   three `concatenate` calls of `test_data` whose results are discarded (so `_testing_data`,
   `_omitted_data` never grow while `_calculated_classes_testset` does).
 
-* one-dimensional data: `DataSet.same_scaling` indexes entry 1 of a per-dimension array, so the `concatenate`
-  calls inside `remove_samples` (two or more removed samples) and `test_data` (omitted samples on both sides)
-  raise `IndexError`; mirrored as `Err.indexError1D`.
-
-Not modelled (the harness does not generate it): one-dimensional data together with a user `data_range` (every
-`concatenate` of the split raises); data sets scaled beforehand by other means than one `scale_range` (e.g. a
+Not modelled (the harness does not generate it): data sets scaled beforehand by other means than one `scale_range` (e.g. a
 `DataSet` object this `Classification` has already scaled in place); `continue_dimension_wise_refinement`; printing
 and plotting; numpy broadcasting of samples of a wrong dimension other than the refusal.
 
@@ -114,7 +109,6 @@ inductive Err where
   | emptyLearning       -- ValueError "Can't perform classification learning on empty or classless DataSet."
   | invalidRange        -- ValueError "Invalid dataset range."
   | twice               -- ValueError "Can't perform classification for the same object twice."
-  | indexError1D        -- IndexError in `DataSet.same_scaling` (`x[1]` on a 1-element array) when >= 2 samples of 1-D data are removed
   | badSplitInput       -- (model only) the supplied permutation / boundary index list is not what the code would use
 deriving DecidableEq, Repr
 
@@ -165,10 +159,6 @@ def internalPts (st : State) (inp : Input) : Except Err Data :=
     else .ok (inp.data.map fun s => { s with pt := scalePt st.sc s.pt })
   | some (a, b) =>
     if sameScaling st a b inp.data then .ok (preScale a b inp.data) else .error .scalingMismatch
-
-/-- `remove_samples` → `list_concatenate` → `concatenate` → `same_scaling` indexes entry 1 of the per-dimension
-minimum: with one dimension and two or more removed samples the removal itself raises -/
-def removalRaises (dim : Nat) (pts : Data) : Bool := dim == 1 && decide (2 ≤ (removedOf pts).length)
 
 /-! ### arg-max -/
 
@@ -221,7 +211,6 @@ def call (dens : Nat → Pt → Rat) (st : State) (inp : Input) : Except Err (St
   else match internalPts st inp with
     | .error e => .error e
     | .ok pts =>
-      if inp.pre.isNone && removalRaises st.sc.length pts then .error .indexError1D else
       let kept := keptOf pts
       if kept.isEmpty then .error .allOutOfBounds
       else
@@ -247,14 +236,10 @@ def test (dens : Nat → Pt → Rat) (st : State) (inp : Input) : Except Err (St
   else match internalPts st inp with
     | .error e => .error e
     | .ok pts =>
-      if inp.pre.isNone && removalRaises st.sc.length pts then .error .indexError1D else
       let kept := keptOf pts
       if kept.isEmpty then .error .allOutOfBounds
       else
         let used := labelled kept
-        -- `self._omitted_data.concatenate(omitted_data)`: result discarded, but `same_scaling` inside it indexes
-        -- entry 1 of a per-dimension array when both parts are non-empty, scaled and one-dimensional
-        if st.sc.length == 1 && !st.omitted.isEmpty && !(unlabelled kept).isEmpty then .error .indexError1D else
         if used.isEmpty then .error .emptyClassify
         else
           let rows := densRows dens st.k used
@@ -293,7 +278,6 @@ def initScale (raw : Data) (range : Option (List Rat × List Rat)) : Except Err 
       else
         let sc := List.zipWith givenAxis los his
         let scaled := used.map fun s => { s with pt := scalePt sc s.pt }
-        if removalRaises sc.length scaled then .error .indexError1D else
         .ok (sc, false, keptOf scaled, om.map fun s => { s with pt := scalePt sc s.pt })
     | none =>
       let sc := fitScaling (used.map (·.pt))
